@@ -25,12 +25,12 @@ C02_MODELS = {'scalars', 'collections', 'plain', 'extra', 'dashed',
               'dashed_sav', 'enum_str', 'hier', 'hooks', 'ambig', 'optreq',
               'chain', 'absmix', 'unk', 'mixin', 'nested', 'dictkey',
               'lists', 'mergecls', 'extradef', 'absmid', 'dashextra', 'tree',
-              'treex', 'index', 'savopt'}
+              'treex', 'index', 'savopt', 'underhier', 'floatint'}
 C03_MODELS = {'hier', 'discrim', 'ambig', 'enum_str', 'plain', 'multi',
               'chain', 'absmix', 'mixin', 'inhrec', 'samename', 'absmid',
-              'extradef', 'tree'}
+              'extradef', 'tree', 'underhier'}
 C10_MODELS = {'hooks', 'dashed_sav', 'adversarial', 'parsed', 'mixin', 'multi',
-              'samename', 'inhrec', 'index', 'savopt', 'savnest'}
+              'samename', 'inhrec', 'index', 'savopt', 'savnest', 'enumsav'}
 C17_STRONG = {'plain', 'extra', 'dashed_sav', 'enum_str', 'collections',
               'scalars'}
 C17_STRONG_LOAD = {'tree', 'savopt'}
@@ -1117,6 +1117,32 @@ def _fuzz_chunk(args):
     return bad, n
 
 
+# documents for the classes whose savorize uses the seasoning helpers
+SEASON_SEEDS = [
+    'items:\n- id: a\n  price: 1\n- id: b\n',
+    'items:\n- id: [a]\n  price: 1\n',
+    'items:\n- id: {a: b}\n',
+    'items:\n- id: !!int abc\n',
+    'items:\n- id: 0x_\n',
+    'items:\n- id: !!float ""\n',
+    'items:\n- id: !!bool maybe\n',
+    'items:\n- id: 12\n- id: ~\n',
+    'items:\n- id: a\n- id: a\n',
+    'items:\n- price: 1\n',
+    'items:\n- a\n- [b]\n',
+    'items:\n  a: {price: 1}\n  b: 2\n',
+    'items:\n  a: 1\n  ? [k]\n  : 2\n',
+    'items:\n  a: {id: x, price: 1}\n',
+    'items:\n  a: [1]\n',
+    'items: {a: {price: 1}, a: {price: 2}}\n',
+    'items: {1: {price: 1}, ~: 3}\n',
+    'items: &i {a: *i}\n',
+    'items: abc\n',
+    'items: []\n',
+    'items: {}\n',
+]
+
+
 def c08_fuzz(V, tier):
     """Text-level exploration beyond the specification's abstract documents:
     token soup from YAML indicators, mutated valid documents, arbitrary
@@ -1130,10 +1156,13 @@ def c08_fuzz(V, tier):
     for c in rnd.sample(cases, min(400, len(cases))):
         seeds.append(render.render(c['doc'], ctx['implicit'],
                                    rnd.choice(['flow', 'block']))[0])
+    seeds += SEASON_SEEDS
     texts = fuzz_texts(rnd, 6000 if tier == 'quick' else 150000, seeds)
+    texts += SEASON_SEEDS
     combos = []
     for mid in ('scalars', 'collections', 'plain', 'extra', 'enum_str',
-                'hier', 'adversarial', 'parsed', 'raising', 'dashed_sav'):
+                'hier', 'adversarial', 'parsed', 'raising', 'dashed_sav',
+                'season', 'index'):
         dts = ctx['models'][mid]['doctypes']
         combos += [(mid, dt) for dt in dts[:3]]
     chunks = [(c, combos) for c in chunked(texts, NCPU * 2)]
